@@ -189,6 +189,10 @@ HUGE_MUTS = {"Signal": ["add_constant", "add_series", "add_signal", "remove_aver
                            "set_zero_residual_velocity:none", "set_zero_residual_velocity:tz", "set_zero_residual_velocity:tz_open",
                            "set_zero_residual_displacement", "szrdv:none", "szrdv:tz", "szrdv:tz_open", "correct_me"]}
 SWEEP_HUGE = [(cls, m, j) for cls in ("Signal", "AccSignal") for m in HUGE_MUTS[cls] for j in range(6)]
+# a long run of invalidations between two reads: every derived quantity is read, then 1 100 small mutators follow with no read
+# of the object itself in between (the oracle reads deep copies), so a counter, stamp or ring buffer that wraps after 2^8,
+# 2^9, 1 000 or 2^10 invalidations is met on the step where it wraps (c04w-2)
+SWEEP_LONG = [(cls, m) for cls in ("Signal", "AccSignal") for m in ("add_constant", "add_series")]
 # two objects loaded from one file (the file is written once), both read, then every mutator on each of them (c04u-2)
 SWEEP_FILE = [(how, "mut:" + m) for how, muts in (("load_signal:acc_sig", MUT_ACC), ("load_asig", MUT_ACC), ("load_signal:signal", MUT_SIG),
                                                  ("load_sig", MUT_SIG)) for m in muts if m != "add_signal"]
@@ -197,7 +201,7 @@ SWEEP_FILE = [(how, "mut:" + m) for how, muts in (("load_signal:acc_sig", MUT_AC
 SWEEP_SHARE = [(cls, route, "mut:" + m) for cls, muts in (("Signal", MUT_SIG), ("AccSignal", MUT_ACC)) for route in ("new", "reset")
                for m in muts]
 N_SWEEP = len(SWEEP_STATE) + len(SWEEP_K2) + len(SWEEP_K2_READS) + len(SWEEP_NI) + len(SWEEP_ABA) + len(SWEEP_COIN) + len(SWEEP_SHARE) + \
-    len(SWEEP_K1) + len(SWEEP_HUGE) + len(SWEEP_FILE)
+    len(SWEEP_K1) + len(SWEEP_HUGE) + len(SWEEP_FILE) + len(SWEEP_LONG)
 REPRESENTATIVE = {"fa": ["fa_spectrum", "fa_spectrum_abs", "fa_freqs", "fa_frequencies"], "smooth": ["smooth_fa_spectrum"],
                   "vd": ["velocity", "displacement"], "pga": ["pga"], "pgv": ["pgv"], "pgd": ["pgd"],
                   "resp": ["s_a", "s_v", "s_d"]}
@@ -306,20 +310,23 @@ class C04(Profile):
         elif index < len(SWEEP_STATE) + len(SWEEP_K2) + len(SWEEP_K2_READS) + len(SWEEP_NI) + len(SWEEP_ABA):
             cls, how, mk = SWEEP_ABA[index - len(SWEEP_STATE) - len(SWEEP_K2) - len(SWEEP_K2_READS) - len(SWEEP_NI)]
             cfg.update(run_class="sweep-state", sweep={"cls": cls, "state": [], "aba": {"how": how, "mk": mk}})
-        elif index < N_SWEEP - len(SWEEP_SHARE) - len(SWEEP_K1) - len(SWEEP_HUGE) - len(SWEEP_FILE):
+        elif index < N_SWEEP - len(SWEEP_SHARE) - len(SWEEP_K1) - len(SWEEP_HUGE) - len(SWEEP_FILE) - len(SWEEP_LONG):
             cls, n, c = SWEEP_COIN[index - len(SWEEP_STATE) - len(SWEEP_K2) - len(SWEEP_K2_READS) - len(SWEEP_NI) - len(SWEEP_ABA)]
             cfg.update(run_class="sweep-state", sweep={"cls": cls, "state": [], "coin": {"n": n, "c": c}})
-        elif index < N_SWEEP - len(SWEEP_K1) - len(SWEEP_HUGE) - len(SWEEP_FILE):
-            cls, route, mk = SWEEP_SHARE[index - (N_SWEEP - len(SWEEP_SHARE) - len(SWEEP_K1) - len(SWEEP_HUGE) - len(SWEEP_FILE))]
+        elif index < N_SWEEP - len(SWEEP_K1) - len(SWEEP_HUGE) - len(SWEEP_FILE) - len(SWEEP_LONG):
+            cls, route, mk = SWEEP_SHARE[index - (N_SWEEP - len(SWEEP_SHARE) - len(SWEEP_K1) - len(SWEEP_HUGE) - len(SWEEP_FILE) - len(SWEEP_LONG))]
             cfg.update(run_class="sweep-state", sweep={"cls": cls, "state": [], "share": {"route": route, "mk": mk}})
-        elif index < N_SWEEP - len(SWEEP_HUGE) - len(SWEEP_FILE):
-            cls, b, which, i, dtp = SWEEP_K1[index - (N_SWEEP - len(SWEEP_K1) - len(SWEEP_HUGE) - len(SWEEP_FILE))]
+        elif index < N_SWEEP - len(SWEEP_HUGE) - len(SWEEP_FILE) - len(SWEEP_LONG):
+            cls, b, which, i, dtp = SWEEP_K1[index - (N_SWEEP - len(SWEEP_K1) - len(SWEEP_HUGE) - len(SWEEP_FILE) - len(SWEEP_LONG))]
             cfg.update(run_class="sweep-state", faults_on=True, sweep={"cls": cls, "state": [], "k1": {"m": b, "which": which, "i": i, "nd": dtp}})
-        elif index < N_SWEEP - len(SWEEP_FILE):
-            cls, m, j = SWEEP_HUGE[index - (N_SWEEP - len(SWEEP_HUGE) - len(SWEEP_FILE))]
+        elif index < N_SWEEP - len(SWEEP_FILE) - len(SWEEP_LONG):
+            cls, m, j = SWEEP_HUGE[index - (N_SWEEP - len(SWEEP_HUGE) - len(SWEEP_FILE) - len(SWEEP_LONG))]
             cfg.update(run_class="sweep-state", strict_fp=True, huge=True, max_steps=100, sweep={"cls": cls, "state": [], "huge": {"m": m}})
+        elif index >= N_SWEEP - len(SWEEP_LONG):
+            cls, m = SWEEP_LONG[index - (N_SWEEP - len(SWEEP_LONG))]
+            cfg.update(run_class="sweep-state", max_steps=1200, sweep={"cls": cls, "state": [], "long": {"m": m, "n": 1100}})
         else:
-            how, mk = SWEEP_FILE[index - (N_SWEEP - len(SWEEP_FILE))]
+            how, mk = SWEEP_FILE[index - (N_SWEEP - len(SWEEP_FILE) - len(SWEEP_LONG))]
             cls = "AccSignal" if how in ("load_signal:acc_sig", "load_asig") else "Signal"
             cfg.update(run_class="sweep-state", max_steps=60, sweep={"cls": cls, "state": [], "file": {"how": how, "mk": mk}})
         return cfg
@@ -1189,6 +1196,26 @@ class OpGen(object):
             return
         if "huge" in sw:
             self._plan_huge(world, cls, sw["huge"]["m"])
+            return
+        if "long" in sw:
+            m, count = sw["long"]["m"], sw["long"]["n"]
+            vals = [round(v, 3) for v in gen_record(rng, 8, kind="noise", amp=1.0)]
+            kw = {"smooth_fa_freqs": nd([1.0, 5.0])}
+            if cls == "AccSignal":
+                kw["response_times"] = nd([0.2, 0.5])
+            self.queue.append(lambda w: {"op": "new", "p": "S0", "cls": cls, "values": nd(vals), "dt": 0.01, "kw": kw})
+            obs = list(OBS_ACC if cls == "AccSignal" else OBS_SIG)
+            for x in obs:
+                self.queue.append(lambda w, x=x: {"op": "read", "p": "S0", "x": x})
+            for j in range(count):
+                c = 0.125 if j % 2 == 0 else -0.0625
+                if m == "add_constant":
+                    op = {"op": "mut", "p": "S0", "m": m, "a": [c], "kw": {}, "no_fault": True, "guard": True}
+                else:
+                    op = {"op": "mut", "p": "S0", "m": m, "a": [nd([c * ((i % 3) - 1) for i in range(8)])], "kw": {}, "no_fault": True, "guard": True}
+                self.queue.append(lambda w, op=op: dict(op))
+            for x in obs:
+                self.queue.append(lambda w, x=x: {"op": "read", "p": "S0", "x": x})
             return
         if "file" in sw:
             how, mk = sw["file"]["how"], sw["file"]["mk"]
